@@ -16,7 +16,7 @@ func Generate(prop string, seed uint64, tier string) *plan.Plan {
 	var p *plan.Plan
 	switch prop {
 	case "C07":
-		p = genC07(r)
+		p = genC07(r, tier)
 	case "C05":
 		p = genC05(r)
 	case "C08":
